@@ -945,7 +945,9 @@ def run(ctx: Ctx):
     clean = 0
     results = [(name, sc, run_scenario(sc, control=True)) for name, sc in scenarios]
     from harness.lib.core import load_findings, run_driver, sig_matches
-    open_f = [f for f in load_findings() if f["property"] == "C06" and f.get("status") == "open"]
+    # recorded entries that Ctx.finish handles: open findings (KNOWN-FINDING) and observations (behaviour the stronger-than-the-
+    # property oracle of this rig flags although host B is untouched; counted in the evidence, neither violation nor finding)
+    open_f = [f for f in load_findings() if f["property"] == "C06" and f.get("status") in ("open", "observation")]
     all_lines: List[str] = []
     for _, _, res in results:
         all_lines += res["topo"] + res["topo_ctl"]
@@ -1052,9 +1054,9 @@ def run(ctx: Ctx):
                 ctx.sample({"rig": "net", "scenario": sc, "log": res["log"][:6]}, cap=5)
             continue
         if all(any(sig_matches(f["signature"], sig_of(sc, v)) for f in open_f) for v in res["violations"]):
-            # every violation of this scenario is a recorded open finding (reported KNOWN-FINDING by Ctx.finish)
+            # every report of this scenario is a recorded entry (open finding -> KNOWN-FINDING, observation -> counted; Ctx.finish)
             clean += 1
-            ctx.count("net:scenario-shows-only-known-findings")
+            ctx.count("net:scenario-shows-only-recorded-findings-or-observations")
             for v in res["violations"]:
                 ctx.violation(sig_of(sc, v), f"{sc['family']}/{sc['block']}: {v.get('diff') or v.get('what')} after {sc['post_ops']}",
                               {"rig": "net", "scenario": sc, "violations": res["violations"], "log": res["log"], "from": name})
